@@ -1,11 +1,11 @@
 """C03 — verified dimensions = intersection of inputs and the user's subset."""
 import datagen as dg
 import props.c01 as c01
-from common import tokens_close, xr, xvec
+from common import from_xvec, tokens_close, xr, xvec
 
 ID = "C03"
-TARGETS = ["Proofs.C03", "Proofs.DataRefine", "Proofs.GenEq.Subset"]
-GEN_PREFIXES = ["subset."]
+TARGETS = ["Proofs.C03", "Proofs.DataRefine", "Proofs.GenEq.Subset", "Proofs.GenEq.DateFilter"]
+GEN_PREFIXES = ["subset.", "datefilter."]
 THEOREMS = {"Proofs.C03": ["VerifModel.C03." + t for t in [
     "C03_sortU", "strictAsc_filter", "memX_filter", "C03_commonValues", "C03_ranges_inclusive",
     "C03_obsrange_value", "C03_obsrange_other", "C03_empty_nan", "C03_empty_error"]],
@@ -13,7 +13,9 @@ THEOREMS = {"Proofs.C03": ["VerifModel.C03." + t for t in [
         "getScores_refines", "C03_dims_are_intersection", "C03_dims_error"]],
     "Proofs.GenEq.Subset": ["VerifModel.GenEq.Subset." + t for t in [
         "latlonKeep_eq", "latlonId_eq", "elevKeep_eq", "elevId_eq", "latlonSelect_eq", "excludeX_eq",
-        "useLocationsGen_eq", "gen_latrange_inclusive", "gen_elevrange_inclusive"]]}
+        "useLocationsGen_eq", "gen_latrange_inclusive", "gen_elevrange_inclusive"]],
+    "Proofs.GenEq.DateFilter": ["VerifModel.GenEq.DateFilter." + t for t in [
+        "trunc_int", "day_eq", "dateKeep_eq", "mod_floor", "hour_eq", "todKeep_eq", "C03_tod_exact_hour"]]}
 TRUSTED_BASE = c01.TRUSTED_BASE + [
     "option parsing (driver.py -> Data constructor arguments) is not part of this check (see C13); the check "
     "passes already-parsed values to Data(...)"]
@@ -117,6 +119,25 @@ LEVEL_TEXT += (" The range predicates themselves are machine-translated from /re
                "-l / -lx filters likewise (latlonSelect_eq, excludeX_eq).")
 
 
+# ---- translator extension (harness/translate_more.py gen_datefilter, AUDIT4 row C03)
+TRUSTED_BASE = TRUSTED_BASE + [
+    "harness/translate_more.py gen_datefilter: the -d / -tod tests of Data.__init__ (`int(t // 86400)*86400 in dates_times`, "
+    "`int(t % 86400)/3600 in tods`) are read from /repo on every run (Gen/DateFilter.lean) operator by operator into the "
+    "primitives of Model/DatePrim.lean (Python float //, %, *, / by a positive integer literal, int() = truncation toward "
+    "zero, on exact rationals); GenEq.DateFilter.dateKeep_eq / todKeep_eq prove them equal to the tests of Model/Data.lean "
+    "Data.init (memX (dayStart t), memX (hourOfDay t)); validated each run by stream data.gendates"]
+ASSUMPTIONS = [a for a in ASSUMPTIONS if not a.startswith(("init times are whole seconds >= 0", "-tod takes hours"))] + [
+    "-d / -tod: any finite init time, negative (before 1970) and fractional included, in the theorems (the day is the floor "
+    "of t / 86400); the data.gendates stream uses whole seconds (the input files hold integer times)"]
+RULE += ("; data.gendates: one input, one station, 1-4 consecutive days starting 3 days before the epoch .. 1 day after (or in "
+         "2012), times at whole and half hours and 1 s off, -d with dates inside / next to the data, -tod with whole and "
+         "half hours; observable = the verified times, judged with exact fractions from the help text (a time belongs to the "
+         "UTC day that contains it; -tod hh selects hh:00:00 only)")
+LEVEL_TEXT += (" The -d / -tod tests are machine-translated from /repo on every run and proved to be the model's for every "
+               "time (dateKeep_eq, todKeep_eq: floor semantics before 1970); C03_tod_exact_hour: a time s seconds past the "
+               "whole hour h is selected by -tod h iff s = 0 (hh:30 is not).")
+
+
 # ---- stream data.gensubset: the location-subsetting pieces machine-translated from Data.__init__ (Gen/Subset.lean,
 # assembled by Model/SubsetGen.lean) executed against the real constructor: one input, several stations, the options
 # -l -lx -latrange -lonrange -elevrange; reply = the verified location ids, ERR = an error exit
@@ -187,36 +208,110 @@ def _gensubset_judge(op, impl_out):
     return None
 
 
+# ---- stream data.gendates: the -d / -tod tests machine-translated from Data.__init__ (Gen/DateFilter.lean) executed
+# against the real constructor: one input, one station, times around the epoch (negative = before 1970), at whole and
+# half hours, some one second off (whole seconds: the input files hold integer times); reply = the verified times, EMPTY = none left
+def _gendates_ops(tier, rng):
+    import random
+    r = random.Random(repr(rng.getstate()[1][:4]) + "gendates")      # derived without advancing rng
+    for _ in range(200 if tier == "quick" else 3000):
+        day0 = r.choice([-3, -2, -1, 0, 1, 15400])
+        days = [day0 + k for k in range(r.choice([1, 2, 3, 4]))]
+        secs = [0, 1800, 3600, 5400, 21600, 23400, 43200, 45000, 84600, 86399, 1, 3599, 3601]
+        times = sorted(set(float(d * 86400 + s) for d in days for s in r.sample(secs, r.randint(1, 5))))
+        cfg = {}
+        if r.random() < 0.7:
+            pool = [float(d * 86400) for d in days + [day0 - 1, days[-1] + 1]]
+            cfg["dates"] = r.sample(pool, r.randint(1, len(pool) - 1))
+            if r.random() < 0.2:
+                cfg["dates"].append(cfg["dates"][0])
+        if r.random() < 0.7 or not cfg:
+            cfg["tods"] = r.sample([0.0, 1.0, 6.0, 12.0, 23.0, 0.5, 1.5], r.randint(1, 3))
+        yield "data.gendates", "gendates %s %s" % (dg.enc_cfg(cfg), xvec(times))
+
+
+def _gendates_dec(op):
+    a = op.split(" ")
+    ds, _ = dg.dec_op("data %s 0|0|1:50:10:100|obs=0;fcst=0 -" % a[1])
+    times = [float(x) for x in from_xvec(a[2])]
+    one = [[[0.0]] for _ in times]
+    return dg.DS([{"times": times, "leads": [0.0], "locs": [(1.0, 50.0, 10.0, 100.0)],
+                   "fields": {"obs": one, "fcst": one}}], ds.cfg), times
+
+
+def _gendates_impl(op):
+    import warnings
+    ds, _ = _gendates_dec(op)
+    with warnings.catch_warnings():
+        warnings.simplefilter("ignore")
+        try:
+            data = dg.build_data(ds)
+        except SystemExit:
+            return "ERR"
+    return xvec([float(t) for t in data.times]) if len(data.times) else "EMPTY"
+
+
+def _gendates_judge(op, impl_out):
+    """the documented semantics, written from the help text with exact fractions: -d keeps the initialisation times
+    that lie within one of the dates (00:00:00 <= t < 24:00:00 UTC of that day, also before 1970); -tod keeps those
+    whose hour of day, to the whole second, is one of the listed hours (hh:30 is not hour hh)"""
+    from fractions import Fraction as F
+    ds, times = _gendates_dec(op)
+    c = ds.cfg
+    keep = []
+    for t in times:
+        q = F(t)
+        ok = c.get("dates") is None or any(F(d) <= q < F(d) + 86400 for d in c["dates"])
+        if ok and c.get("tods") is not None:
+            whole = q.numerator // q.denominator                    # whole seconds (floor)
+            sod = whole % 86400                                     # second of the day, 0 .. 86399
+            ok = any(F(h) * 3600 == sod for h in c["tods"])
+        if ok:
+            keep.append(t)
+    want = xvec(keep) if keep else "EMPTY"
+    if impl_out != want:
+        return ({"kind": "date-filter"}, "verified times %s, the options select %s (%s)" % (impl_out, want, op.split(" ")[1]))
+    return None
+
+
 def gen_ops(tier, rng, _base=gen_ops):
     for x in _base(tier, rng):
         yield x
     for x in _gensubset_ops(tier, rng):
+        yield x
+    for x in _gendates_ops(tier, rng):
         yield x
 
 
 def impl(op):
     if op.startswith("gensubset "):
         return _gensubset_impl(op)
+    if op.startswith("gendates "):
+        return _gendates_impl(op)
     return dg.impl_data(op)
 
 
 def cmp(op, impl_out, model_out):
-    if op.startswith("gensubset "):
+    if op.startswith(("gensubset ", "gendates ")):
         return impl_out == model_out
     return tokens_close(impl_out, model_out, 1e-9, 1e-12)
 
 
 def spec_op(op):
-    return None if op.startswith("gensubset ") else c01.spec_op(op)
+    return None if op.startswith(("gensubset ", "gendates ")) else c01.spec_op(op)
 
 
 def judge(op, impl_out, spec_out):
     if op.startswith("gensubset "):
         return _gensubset_judge(op, impl_out)
+    if op.startswith("gendates "):
+        return _gendates_judge(op, impl_out)
     return c01.judge(op, impl_out, spec_out)
 
 
 def nontrivial(op, out):
     if op.startswith("gensubset "):
         return out != "ERR"
+    if op.startswith("gendates "):
+        return out not in ("ERR", "EMPTY")
     return c01.nontrivial(op, out)
